@@ -63,3 +63,9 @@ def fast_copy(whole, off, ml):
 
 def block_spec(data, seqs, partial=False):
     return ('p' if partial else '') + (data.hex() or '-') + ':' + (';'.join('%d,%d,%d' % s for s in seqs) or '-')
+
+
+def weak_skew(rng, n, p):
+    """nearly incompressible: uniform bytes, a fraction p replaced by one of three frequent symbols"""
+    thr = int(p * 1000000)
+    return bytes((65 + rng.below(3)) if rng.below(1000000) < thr else rng.below(256) for _ in range(n))
